@@ -18,6 +18,8 @@ happened to choose:
   P7  `set([e for ..])` / `set(e for ..)` -> `{e for ..}`.
   P9  `v = a` directly followed by `if c: v = b` -> `v = b if c else a`.
   P10 the local defined once as `m.opti if hasattr(m, 'opti') else m` is named `opti`.
+  P12 local un-rename: a local variable that vanished from the frozen list of a function's bindings (known_locals.json) while
+      a new one with the same kind of binding appeared in its place gets its known name back (scope-aware alpha-renaming).
   P4  `if c: r.m(a)` / `else: r.m(b)` (same callee, one differing positional argument) -> `r.m(a if c else b)`.
 
 Nothing here changes what the analysed program would compute.
@@ -130,6 +132,454 @@ def unrename(prog, known):
     return done
 
 
+# ---------------------------------------------------------------------------------------- P12 (local un-rename)
+def _own_nodes(fnode):
+    """Nodes of a function's own scope in source order (nested function / class bodies excluded, their def statement included)."""
+    out = []
+    stack = list(reversed(fnode.body))
+    todo = list(fnode.body)
+    def rec(n):
+        out.append(n)
+        if isinstance(n, (ast.FunctionDef, ast.AsyncFunctionDef, ast.ClassDef, ast.Lambda)):
+            return
+        for c in ast.iter_child_nodes(n):
+            rec(c)
+    for st in fnode.body:
+        rec(st)
+    return out
+
+
+def _value_sig(v):
+    if v is None:
+        return "none"
+    if isinstance(v, ast.Call):
+        f = v.func
+        return "call:" + (f.attr if isinstance(f, ast.Attribute) else f.id if isinstance(f, ast.Name) else "?")
+    if isinstance(v, ast.Constant):
+        return "const:" + type(v.value).__name__
+    return type(v).__name__
+
+
+def scope_bindings(fnode):
+    """[(name, signature)] of the names bound in this function's own scope, in order of first binding.
+    Parameters come first (signature 'param'); comprehension targets are listed too (they are renamed with the scope)."""
+    seen, out = set(), []
+
+    def add(name, sig):
+        if name not in seen:
+            seen.add(name)
+            out.append((name, sig))
+    a = fnode.args
+    for x in a.posonlyargs + a.args + ([a.vararg] if a.vararg else []) + a.kwonlyargs + ([a.kwarg] if a.kwarg else []):
+        add(x.arg, "param")
+
+    def targets(t, sig):
+        if isinstance(t, ast.Name):
+            add(t.id, sig)
+        elif isinstance(t, (ast.Tuple, ast.List)):
+            for i, e in enumerate(t.elts):
+                targets(e, sig + "[%d]" % i)
+        elif isinstance(t, ast.Starred):
+            targets(t.value, sig + "*")
+    for n in _own_nodes(fnode):
+        if isinstance(n, ast.Assign):
+            for t in n.targets:
+                targets(t, "assign:" + _value_sig(n.value))
+        elif isinstance(n, ast.AnnAssign) and n.value is not None:
+            targets(n.target, "assign:" + _value_sig(n.value))
+        elif isinstance(n, ast.AugAssign):
+            targets(n.target, "aug")
+        elif isinstance(n, (ast.For, ast.AsyncFor)):
+            targets(n.target, "for:" + _value_sig(n.iter))
+        elif isinstance(n, ast.comprehension):
+            targets(n.target, "comp:" + _value_sig(n.iter))
+        elif isinstance(n, (ast.With, ast.AsyncWith)):
+            for it in n.items:
+                if it.optional_vars is not None:
+                    targets(it.optional_vars, "with")
+        elif isinstance(n, ast.ExceptHandler) and n.name:
+            add(n.name, "except")
+        elif isinstance(n, (ast.FunctionDef, ast.AsyncFunctionDef)):
+            add(n.name, "def")
+        elif isinstance(n, ast.NamedExpr):
+            targets(n.target, "walrus")
+    return out
+
+
+def _nested_defs(fnode):
+    return [n for n in _own_nodes(fnode) if isinstance(n, (ast.FunctionDef, ast.AsyncFunctionDef))]
+
+
+def _all_names(fnode):
+    names = set()
+    for n in ast.walk(fnode):
+        if isinstance(n, ast.Name):
+            names.add(n.id)
+        elif isinstance(n, ast.arg):
+            names.add(n.arg)
+        elif isinstance(n, ast.ExceptHandler) and n.name:
+            names.add(n.name)
+        elif isinstance(n, (ast.FunctionDef, ast.AsyncFunctionDef)):
+            names.add(n.name)
+    return names
+
+
+class _AlphaRename(ast.NodeTransformer):
+    """Consistent renaming of local names inside one function; stops at nested functions that bind the name themselves."""
+    def __init__(self, mapping):
+        self.mapping = dict(mapping)
+
+    def _sub(self, mapping):
+        return _AlphaRename(mapping)
+
+    def visit_Name(self, n):
+        if n.id in self.mapping:
+            n.id = self.mapping[n.id]
+        return n
+
+    def visit_arg(self, n):
+        if n.arg in self.mapping:
+            n.arg = self.mapping[n.arg]
+        return n
+
+    def visit_ExceptHandler(self, n):
+        if n.name in self.mapping:
+            n.name = self.mapping[n.name]
+        self.generic_visit(n)
+        return n
+
+    def visit_keyword(self, n):
+        # keyword names at call sites are not local names
+        n.value = self.visit(n.value)
+        return n
+
+    def _nested(self, n):
+        bound = {name for name, _ in scope_bindings(n)}
+        inner = {k: v for k, v in self.mapping.items() if k not in bound}
+        if n.name in self.mapping:
+            n.name = self.mapping[n.name]
+        n.args.defaults = [self.visit(d) for d in n.args.defaults]
+        n.args.kw_defaults = [self.visit(d) if d is not None else None for d in n.args.kw_defaults]
+        if inner:
+            sub = self._sub(inner)
+            n.body = [sub.visit(st) for st in n.body]
+        return n
+
+    visit_FunctionDef = _nested
+    visit_AsyncFunctionDef = _nested
+
+
+def write_locals(prog):
+    out = {}
+
+    def rec(key, node):
+        out[key] = [[n, s] for n, s in scope_bindings(node)]
+        for d in _nested_defs(node):
+            rec(key + "/" + d.name, d)
+    for m in prog.modules.values():
+        out[m.relpath + ":<module>"] = sorted({t.id for st in m.tree.body if isinstance(st, ast.Assign) for t in st.targets if isinstance(t, ast.Name)})
+        for name, f in m.functions.items():
+            rec(m.relpath + ":" + name, f.node)
+        for c in m.classes.values():
+            out[c.name + ".<class>"] = sorted({t.id for st in c.node.body if isinstance(st, ast.Assign) for t in st.targets if isinstance(t, ast.Name)})
+            for name, f in c.methods.items():
+                rec(c.name + "." + name, f.node)
+    json.dump(out, open(os.path.join(HERE, "known_locals.json"), "w"), indent=0)
+    return len(out)
+
+
+def load_locals():
+    try:
+        return json.load(open(os.path.join(HERE, "known_locals.json")))
+    except Exception:
+        return None
+
+
+def unrename_locals(prog):
+    """P12: a local variable that vanished from the frozen binding list of a function while a new one with the same kind of
+    binding appeared at the corresponding place is treated as renamed, and gets its known name back (alpha-renaming:
+    the restored name is not otherwise used in the function, so nothing the function computes changes)."""
+    import difflib
+    ref = load_locals()
+    if ref is None:
+        return []
+    done = []
+
+    def rec(key, node):
+        want = ref.get(key)
+        if want is None:
+            return
+        cur = scope_bindings(node)
+        ref_names = [n for n, _ in want]
+        cur_names = [n for n, _ in cur]
+        vanished = [(n, s) for n, s in want if n not in cur_names]
+        new = [(n, s) for n, s in cur if n not in ref_names]
+        if vanished and new:
+            used = _all_names(node)
+            # align by position among the surviving names first (equal-length gaps), then by binding signature
+            mapping = {}
+            sm = difflib.SequenceMatcher(None, ref_names, cur_names, autojunk=False)
+            for tag, i1, i2, j1, j2 in sm.get_opcodes():
+                if tag == "replace":
+                    a, b = want[i1:i2], cur[j1:j2]
+                    if len(a) == len(b):
+                        for (ro, rs), (cn, cs) in zip(a, b):
+                            if rs.split(":")[0] == cs.split(":")[0]:
+                                mapping[cn] = ro
+                    else:
+                        sm2 = difflib.SequenceMatcher(None, [s_ for _, s_ in a], [s_ for _, s_ in b], autojunk=False)
+                        for blk in sm2.get_matching_blocks():
+                            for d_ in range(blk.size):
+                                mapping[b[blk.b + d_][0]] = a[blk.a + d_][0]
+            mapping = {k: v for k, v in mapping.items() if k != v and v not in used and k in dict(new) and v in dict(vanished)}
+            # one-to-one
+            inv = {}
+            for k, v in list(mapping.items()):
+                if v in inv:
+                    del mapping[k]
+                else:
+                    inv[v] = k
+            if mapping:
+                r = _AlphaRename(mapping)
+                node.args = r.visit(node.args)
+                node.body = [r.visit(st) for st in node.body]
+                done.append("%s: %s" % (key, ", ".join("%s -> %s" % kv for kv in sorted(mapping.items()))))
+        for d in _nested_defs(node):
+            rec(key + "/" + d.name, d)
+    for m in prog.modules.values():
+        for name, f in m.functions.items():
+            rec(m.relpath + ":" + name, f.node)
+        for c in m.classes.values():
+            for name, f in c.methods.items():
+                rec(c.name + "." + name, f.node)
+    return done
+
+
+# ---------------------------------------------------------------------------------------- P13 (new pure locals are inlined)
+PURE_CALLS = {"len", "range", "list", "tuple", "zip", "enumerate", "sorted", "dict", "set", "min", "max", "sum", "abs", "isinstance", "hasattr", "bool", "int", "float",
+              "vertcat", "horzcat", "veccat", "vvcat", "vcat", "hcat", "MX", "DM", "repmat", "reversed", "any", "all"}
+
+
+def _is_pure(v):
+    """Expression without side effects whose value depends only on the names / attribute paths it reads."""
+    for n in ast.walk(v):
+        if isinstance(n, ast.Call):
+            f = n.func
+            nm = f.id if isinstance(f, ast.Name) else (f.attr if isinstance(f, ast.Attribute) and isinstance(f.value, ast.Name) and f.value.id in ("ca", "casadi", "np", "numpy") else None)
+            if nm not in PURE_CALLS:
+                return False
+        elif isinstance(n, (ast.Await, ast.Yield, ast.YieldFrom, ast.NamedExpr, ast.Lambda)):
+            return False
+    return True
+
+
+def _read_roots(v):
+    roots = set()
+    for n in ast.walk(v):
+        if isinstance(n, ast.Name) and isinstance(n.ctx, ast.Load):
+            roots.add(n.id)
+    return roots
+
+
+def _read_paths(v):
+    """Attribute paths read by v, as text (self.U, stage._method, ...)."""
+    out = set()
+    for n in ast.walk(v):
+        if isinstance(n, (ast.Attribute, ast.Name)):
+            try:
+                out.add(ast.unparse(n))
+            except Exception:
+                pass
+    return out
+
+
+class _Subst(ast.NodeTransformer):
+    def __init__(self, name, value):
+        self.name, self.value, self.count = name, value, 0
+
+    def visit_Name(self, n):
+        if n.id == self.name and isinstance(n.ctx, ast.Load):
+            self.count += 1
+            return copy.deepcopy(self.value)
+        return n
+
+    def visit_keyword(self, n):
+        n.value = self.visit(n.value)
+        return n
+
+
+def _stmt_lists(node):
+    for n in ast.walk(node):
+        for fld in ("body", "orelse", "finalbody"):
+            l = getattr(n, fld, None)
+            if isinstance(l, list) and l and isinstance(l[0], ast.stmt):
+                yield l
+        if isinstance(n, ast.Try):
+            for h in n.handlers:
+                yield h.body
+
+
+def _mutates(st, paths, roots):
+    """May the statement change what one of the paths denotes?  (assignment / augmented assignment / del of a prefix, or a
+    mutating method call on a prefix; conservative on everything it does not understand)"""
+    MUT = ("append", "extend", "insert", "pop", "remove", "clear", "update", "setdefault", "sort", "reverse", "popitem", "move_to_end", "add", "discard")
+    for n in ast.walk(st):
+        tg = []
+        if isinstance(n, ast.Assign):
+            tg = n.targets
+        elif isinstance(n, (ast.AugAssign, ast.AnnAssign)):
+            tg = [n.target]
+        elif isinstance(n, ast.Delete):
+            tg = n.targets
+        elif isinstance(n, (ast.For, ast.AsyncFor)):
+            tg = [n.target]
+        for t in tg:
+            for x in ast.walk(t):
+                if isinstance(x, (ast.Name, ast.Attribute)):
+                    txt = ast.unparse(x)
+                    if any(p_ == txt or p_.startswith(txt + ".") or p_.startswith(txt + "[") or txt.startswith(p_ + ".") for p_ in paths):
+                        return True
+        if isinstance(n, ast.Call) and isinstance(n.func, ast.Attribute) and n.func.attr in MUT:
+            txt = ast.unparse(n.func.value)
+            if any(p_ == txt or p_.startswith(txt + ".") or txt.startswith(p_ + ".") or txt.startswith(p_ + "[") for p_ in paths):
+                return True
+    return False
+
+
+def inline_new_locals(prog):
+    """P13: a local variable that is not in the frozen binding list of its function (i.e. introduced by a later edit), is
+    assigned exactly once - a pure expression - in a statement list that also contains all its uses, and whose ingredients are
+    not modified between the assignment and the last use, is replaced by its definition.  Module-level names that are new,
+    private (leading underscore) and bound once to a literal / container of attribute paths are replaced likewise."""
+    ref = load_locals()
+    if ref is None:
+        return []
+    done = []
+
+    def rec(key, fnode):
+        want = ref.get(key)
+        if want is not None:
+            known = {n for n, _ in want}
+            changed = True
+            rounds = 0
+            while changed and rounds < 8:
+                changed = False
+                rounds += 1
+                binds = scope_bindings(fnode)
+                for name, sig in binds:
+                    if name in known or not sig.startswith("assign:") or "[" in sig:
+                        continue
+                    # exactly one binding in the whole function (nested scopes included)
+                    stores = [n for n in ast.walk(fnode) if (isinstance(n, ast.Name) and n.id == name and isinstance(n.ctx, (ast.Store, ast.Del))) or (isinstance(n, ast.arg) and n.arg == name)]
+                    if len(stores) != 1:
+                        continue
+                    host = None
+                    for lst in _stmt_lists(fnode):
+                        for i, st in enumerate(lst):
+                            if isinstance(st, ast.Assign) and len(st.targets) == 1 and st.targets[0] is stores[0]:
+                                host = (lst, i, st)
+                    if host is None:
+                        continue
+                    lst, i, st = host
+                    adjacent_temp = False
+                    if not _is_pure(st.value):
+                        # an extracted temporary: one use, in the very next statement, evaluated before anything else could run in between
+                        nxt = lst[i + 1] if i + 1 < len(lst) else None
+                        uses_nxt = sum(1 for n in ast.walk(nxt) if isinstance(n, ast.Name) and n.id == name and isinstance(n.ctx, ast.Load)) if nxt is not None else 0
+                        total = sum(1 for n in ast.walk(fnode) if isinstance(n, ast.Name) and n.id == name and isinstance(n.ctx, ast.Load))
+                        head = nxt.test if isinstance(nxt, (ast.If, ast.While)) else nxt.value if isinstance(nxt, (ast.Assign, ast.Expr, ast.Return, ast.AugAssign)) and nxt.value is not None else None
+                        in_head = head is not None and sum(1 for n in ast.walk(head) if isinstance(n, ast.Name) and n.id == name) == 1
+                        if not (uses_nxt == 1 and total == 1 and in_head) or any(isinstance(x, (ast.Await, ast.Yield, ast.YieldFrom, ast.Lambda)) for x in ast.walk(st.value)):
+                            continue
+                        adjacent_temp = True
+                    # every use lies in the statements that follow in the same list
+                    uses_total = sum(1 for n in ast.walk(fnode) if isinstance(n, ast.Name) and n.id == name and isinstance(n.ctx, ast.Load))
+                    after = lst[i + 1:]
+                    uses_after = sum(1 for s_ in after for n in ast.walk(s_) if isinstance(n, ast.Name) and n.id == name and isinstance(n.ctx, ast.Load))
+                    if uses_total == 0 or uses_total != uses_after:
+                        continue
+                    # a freshly built mutable container keeps its identity: only a single, non-mutating use may be replaced
+                    fresh = isinstance(st.value, (ast.List, ast.Dict, ast.Set, ast.ListComp, ast.DictComp, ast.SetComp)) or \
+                        (isinstance(st.value, ast.Call) and isinstance(st.value.func, ast.Name) and st.value.func.id in ("list", "dict", "set", "sorted", "defaultdict", "OrderedDict"))
+                    if fresh:
+                        if uses_total != 1:
+                            continue
+                        if any(_mutates(s_, {name}, None) for s_ in after):
+                            continue
+                    last = max(j for j, s_ in enumerate(after) if any(isinstance(n, ast.Name) and n.id == name for n in ast.walk(s_)))
+                    paths = _read_paths(st.value) - {name}
+                    if not adjacent_temp and any(_mutates(s_, paths, None) for s_ in after[:last + 1]):
+                        continue
+                    # a big expression used many times is left alone (keeps the trees readable); aliases and single uses always go
+                    simple = isinstance(st.value, (ast.Name, ast.Attribute, ast.Constant)) or (isinstance(st.value, ast.Subscript) and isinstance(st.value.slice, ast.Constant))
+                    if not simple and uses_total > 3:
+                        continue
+                    sub = _Subst(name, st.value)
+                    for j in range(i + 1, len(lst)):
+                        lst[j] = sub.visit(lst[j])
+                    del lst[i]
+                    if not lst:
+                        lst.append(ast.Pass())
+                    done.append("%s: %s (%d use%s)" % (key, name, sub.count, "" if sub.count == 1 else "s"))
+                    changed = True
+                    break
+        for d in _nested_defs(fnode):
+            rec(key + "/" + d.name, d)
+
+    for m in prog.modules.values():
+        # new private module-level constants
+        known_mod = set(ref.get(m.relpath + ":<module>", []) or [])
+        if (m.relpath + ":<module>") in ref:
+            body = m.tree.body
+            for st in list(body):
+                if isinstance(st, ast.Assign) and len(st.targets) == 1 and isinstance(st.targets[0], ast.Name):
+                    nm = st.targets[0].id
+                    if nm in known_mod or not nm.startswith("_") or nm.startswith("__"):
+                        continue
+                    if sum(1 for n in ast.walk(m.tree) if isinstance(n, ast.Name) and n.id == nm and isinstance(n.ctx, ast.Store)) != 1:
+                        continue
+                    if not _is_pure(st.value) or any(isinstance(x, ast.Call) for x in ast.walk(st.value)):
+                        continue
+                    sub = _Subst(nm, st.value)
+                    for other in body:
+                        if other is not st:
+                            sub.visit(other)
+                    if sub.count:
+                        body.remove(st)
+                        done.append("%s: module constant %s (%d uses)" % (m.relpath, nm, sub.count))
+        for name, f in m.functions.items():
+            rec(m.relpath + ":" + name, f.node)
+        for c in m.classes.values():
+            # new private class-level constants used as self.<NAME> / <Class>.<NAME>
+            ckey = c.name + ".<class>"
+            if ckey in ref:
+                known_c = set(ref[ckey])
+                for st in list(c.node.body):
+                    if isinstance(st, ast.Assign) and len(st.targets) == 1 and isinstance(st.targets[0], ast.Name):
+                        nm = st.targets[0].id
+                        if nm in known_c or not nm.startswith("_") or nm.startswith("__") or not _is_pure(st.value) or any(isinstance(x, ast.Call) for x in ast.walk(st.value)):
+                            continue
+                        cnt = 0
+                        for fn in c.methods.values():
+                            for n in ast.walk(fn.node):
+                                for fld, val in ast.iter_fields(n):
+                                    vals = val if isinstance(val, list) else [val]
+                                    for idx, x in enumerate(vals):
+                                        if isinstance(x, ast.Attribute) and x.attr == nm and isinstance(x.value, ast.Name) and x.value.id in ("self", c.name, "cls") and isinstance(x.ctx, ast.Load):
+                                            new = copy.deepcopy(st.value)
+                                            if isinstance(val, list):
+                                                val[idx] = new
+                                            else:
+                                                setattr(n, fld, new)
+                                            cnt += 1
+                        if cnt:
+                            c.node.body.remove(st)
+                            done.append("%s: class constant %s (%d uses)" % (c.name, nm, cnt))
+            for name, f in c.methods.items():
+                rec(c.name + "." + name, f.node)
+    return done
+
+
 # ---------------------------------------------------------------------------------------- P1 / P2 / P3
 def _is_list_literal(v):
     return isinstance(v, ast.List) and not any(isinstance(e, ast.Starred) for e in v.elts)
@@ -139,9 +589,42 @@ def _same_target(a, b):
     return ast.dump(a) == ast.dump(b)
 
 
+_NEG = {ast.In: ast.NotIn, ast.NotIn: ast.In, ast.Eq: ast.NotEq, ast.NotEq: ast.Eq, ast.Lt: ast.GtE, ast.GtE: ast.Lt, ast.Gt: ast.LtE, ast.LtE: ast.Gt, ast.Is: ast.IsNot, ast.IsNot: ast.Is}
+
+
+def _is_boolean_expr(v):
+    return isinstance(v, (ast.Compare, ast.BoolOp)) or (isinstance(v, ast.UnaryOp) and isinstance(v.op, ast.Not)) or \
+        (isinstance(v, ast.Call) and isinstance(v.func, ast.Name) and v.func.id in ("isinstance", "hasattr", "bool", "any", "all"))
+
+
 class _Canon(ast.NodeTransformer):
     def __init__(self):
         self.count = 0
+
+    def visit_Compare(self, n):
+        # P14: B == True / B is True -> B;  B == False / B != True -> not B   (B syntactically boolean)
+        self.generic_visit(n)
+        if len(n.ops) == 1 and isinstance(n.comparators[0], ast.Constant) and isinstance(n.comparators[0].value, bool) and _is_boolean_expr(n.left) \
+                and isinstance(n.ops[0], (ast.Eq, ast.NotEq, ast.Is, ast.IsNot)):
+            same = isinstance(n.ops[0], (ast.Eq, ast.Is)) == n.comparators[0].value
+            self.count += 1
+            if same:
+                return n.left
+            return self.visit(ast.copy_location(ast.UnaryOp(op=ast.Not(), operand=n.left), n))
+        return n
+
+    def visit_UnaryOp(self, n):
+        # P14: not (a OP b) -> a NEG(OP) b for a single comparison; not not B -> B
+        self.generic_visit(n)
+        if isinstance(n.op, ast.Not):
+            v = n.operand
+            if isinstance(v, ast.Compare) and len(v.ops) == 1 and type(v.ops[0]) in _NEG:
+                self.count += 1
+                return ast.copy_location(ast.Compare(left=v.left, ops=[_NEG[type(v.ops[0])]()], comparators=v.comparators), n)
+            if isinstance(v, ast.UnaryOp) and isinstance(v.op, ast.Not) and _is_boolean_expr(v.operand):
+                self.count += 1
+                return v.operand
+        return n
 
     def visit_AugAssign(self, n):
         self.generic_visit(n)
